@@ -948,6 +948,43 @@ def unrollable(node: ast.For) -> bool:
     return _unrollable_body(node)
 
 
+def _helper_row(mod, node) -> bool:
+    """`_Row('a', 'b', convert, flag=True)`: a constructor call of a plain class of the same module over constants and names."""
+    return isinstance(node, ast.Call) and isinstance(node.func, ast.Name) and node.func.id in getattr(mod, "classes", {}) \
+        and not mod.classes[node.func.id].enum_kind \
+        and all(_table_row(a, False) and not isinstance(a, ast.Starred) for a in node.args) \
+        and all(k.arg is not None and _table_row(k.value, False) for k in node.keywords)
+
+
+def _without_continue(node: ast.For):
+    """The loop with every top-level `if c: continue` of its body replaced by `if not c: <rest of the body>`; None when the
+    body uses `continue` in any other position."""
+    def conv(body):
+        out = []
+        for i, st in enumerate(body):
+            if isinstance(st, ast.If) and not st.orelse and len(st.body) == 1 and isinstance(st.body[0], ast.Continue):
+                rest = conv(body[i + 1:])
+                if rest is None:
+                    return None
+                if rest:
+                    neg = ast.copy_location(ast.UnaryOp(op=ast.Not(), operand=st.test), st.test)
+                    out.append(ast.copy_location(ast.If(test=neg, body=rest, orelse=[]), st))
+                return out
+            if any(isinstance(x, ast.Continue) for x in ast.walk(st)):
+                return None
+            out.append(st)
+        return out
+    if not any(isinstance(x, ast.Continue) for b in node.body for x in ast.walk(b)):
+        return None
+    body = conv(node.body)
+    if not body:
+        return None
+    import copy
+    new = copy.copy(node)
+    new.body = body
+    return new
+
+
 def _unrollable_body(node: ast.For, small_table: bool = False) -> bool:
     # a short table written in the loop header itself (or a short module-level table of rows) may drive inner loops: each row
     # gets its own copy of them
@@ -1562,6 +1599,10 @@ class _Frame:
             f_ = self.repo.lookup(it.a[0])
             small_table = bool(f_ and f_[0] == "const" and isinstance(f_[2], ast.Tuple) and 0 < len(f_[2].elts) <= 8
                                and all(isinstance(e, ast.Tuple) and _table_row(e) for e in f_[2].elts))
+        if not unrollable(s) and not s.orelse and not _unrollable_body(s, small_table):
+            s2_ = _without_continue(s)
+            if s2_ is not None and _unrollable_body(s2_, small_table):
+                s = s2_             # `if c: continue` + rest  ==  `if not c:` rest
         if unrollable(s) or (not s.orelse and _unrollable_body(s, small_table)):
             items = it
             if not unrollable(s):
@@ -1574,9 +1615,11 @@ class _Frame:
                             and len(found[2].elts) <= 64 and all(_literal_seq(e) for e in found[2].elts):
                         items = self.eval(found[2], st)
                     elif found and found[0] == "const" and isinstance(found[2], ast.Tuple) and found[2].elts \
-                            and len(found[2].elts) <= 64 and all(_table_row(e) for e in found[2].elts) \
+                            and len(found[2].elts) <= 64 and (all(_table_row(e) for e in found[2].elts)
+                                                              or all(_helper_row(found[1], e) for e in found[2].elts)) \
                             and self.depth < self.I.inline_depth:
                         # an immutable module-level table of (key, name, function) rows: evaluated where it is defined
+                        # (also rows that are objects of a plain helper class of the same module: `_Key('cm', 'name', convert)`)
                         cache = self.I.__dict__.setdefault("_table_cache", {})
                         if id(found[2]) not in cache:
                             fr = _Frame(self.I, found[1], self.fnode, None, Record(), f"{found[1].name}.<module>",
